@@ -336,7 +336,7 @@ Spec == Init /\ [][Next]_vars
 MCNone == {}
 MCQuick == {<<2, 1, 2, TRUE, "few">>, <<2, 2, 1, FALSE, "all">>, <<3, 2, 1, FALSE, "all">>}
 MCQuickCode == {<<2, 1, 1, TRUE, "all">>, <<2, 2, 1, FALSE, "few">>, <<3, 2, 1, FALSE, "few">>}
-MCThorough == {<<2, 1, 3, TRUE, "all">>, <<2, 2, 3, TRUE, "all">>, <<3, 2, 3, TRUE, "all">>}
+MCThorough == {<<2, 1, 3, TRUE, "all">>, <<2, 2, 3, TRUE, "all">>, <<3, 2, 3, TRUE, "few">>}
 MCThoroughCode == {<<2, 1, 3, TRUE, "all">>, <<2, 2, 2, TRUE, "all">>, <<3, 2, 2, FALSE, "all">>}
 AllDeviations == {"D-C17-databytes-unauthenticated", "D-C17-stale-mix", "D-C17-foreign-shard",
                   "D-C17-uniform-truncation", "D-C17-trailing-data", "D-C17-heal-parity-empty"}
@@ -346,18 +346,18 @@ AllMissing(c) == \A i \in 1..N(c) : c.faults[i].kind = "missing"
 \* a node of the tree whose case was not already checked at its parent
 NewCase == pos = 1 \/ case.faults[pos - 1].kind # "none"
 
-CheckOn(c, prop) ==
+CheckOn(c, prop, idem) ==
   LET r1 == Read(c, Shards(c))
       r2 == Read(c, r1.post) IN
   /\ prop => C17Holds(c, r1, r2)
-  /\ Idempotent(c, r1, r2)
+  /\ idem => Idempotent(c, r1, r2)
   /\ (prop /\ AllMissing(c)) =>                        \* the only case the heal scan does not read
         LET s1 == R1(AsScan(c)) IN C17Holds(AsScan(c), s1, Read(c, s1.post))
 
 \* design level (Deviations = {}): the intended reader satisfies the property on
-\* every case, read directly or by the heal scan; and reads are idempotent
-DesignHolds == NewCase => ValidCase(case) /\ CheckOn(case, TRUE)
-\* code level (all deviations): only the idempotence lemma
-CodeIdempotent == NewCase => CheckOn(case, FALSE)
+\* every case, read directly or by the heal scan
+DesignHolds == NewCase => ValidCase(case) /\ CheckOn(case, TRUE, FALSE)
+\* code level (all deviations): the idempotence lemma
+CodeIdempotent == NewCase => CheckOn(case, FALSE, TRUE)
 ClassLemmaHolds == pos = 1 => ClassLemma(case)
 =============================================================================
